@@ -280,6 +280,54 @@ def run_variant(rec):
     return []
 
 
+MERGE_NAMES = {"na": ["Mna", "MNA", "mna"], "nb": ["Mnb", "mnB", "MNB"]}
+MERGE_CONTENT = {"c1": "(Red)", "c2": "(Blue, Square)"}
+
+
+def run_merge(rec):
+    """One case of the merge table of Defs.tla part 4, through the four real ways of combining declarations."""
+    from hed import HedString
+    from hed.models.definition_dict import DefinitionDict
+    from hed.validator import HedValidator
+    schema = _G["schema"]
+    n = [0]
+
+    def texts(src):
+        out = []
+        for x in src:
+            n[0] += 1
+            out.append("(Definition/%s, %s)" % (MERGE_NAMES[x["name"]][n[0] % 3], MERGE_CONTENT[x["content"]]))
+        return out
+    t1, t2 = texts(rec["s1"]), texts(rec["s2"])
+    want = {"m" + e["name"]: MERGE_CONTENT[e["content"]] for e in rec["entries"]}
+    ways = {}
+    try:
+        ways["DefinitionDict([d1, d2])"] = DefinitionDict([DefinitionDict(t1, schema), DefinitionDict(t2, schema)], schema)
+        d = DefinitionDict(t1, schema)
+        d.add_definitions(DefinitionDict(t2, schema))
+        ways["d1.add_definitions(d2)"] = d
+        ways["HedValidator(def_dicts=[d1, d2])"] = HedValidator(schema, def_dicts=[DefinitionDict(t1, schema), DefinitionDict(t2, schema)])._def_validator
+        ways["DefinitionDict(list of strings)"] = DefinitionDict(t1 + t2, schema)
+    except Exception as ex:  # noqa
+        return [("merge-raises", "combining %s and %s raised %s: %s" % (t1, t2, type(ex).__name__, ex))]
+    out = []
+    for how, m in ways.items():
+        got = {k: str(v.contents) for k, v in m.defs.items()}
+        if {k: tree(v) for k, v in got.items()} != {k: tree(v) for k, v in want.items()}:
+            out.append(("duplicate-not-ignored:" + how.split("(")[0], "%s with d1 = %s, d2 = %s holds %s; the first declaration of each "
+                        "name must be kept: %s" % (how, t1, t2, got, want)))
+            continue
+        if rec["newdups"] and not any(i.get("code") == "DEFINITION_INVALID" for i in m.issues) and how != "DefinitionDict(list of strings)":
+            out.append(("duplicate-not-reported:" + how.split("(")[0], "%s with d1 = %s, d2 = %s reports no duplicate (%s)"
+                        % (how, t1, t2, [i.get("code") for i in m.issues])))
+        for k, v in want.items():      # and the kept declaration is the one that expands
+            h = HedString("Item, Def/%s" % k, schema, m)
+            h.expand_defs()
+            if tree(str(h)) != tree("Item, (Def-expand/%s, %s)" % (k, v)):
+                out.append(("duplicate-not-ignored:expansion", "%s: Def/%s expands to %s, declared first: %s" % (how, k, h, v)))
+    return out
+
+
 def run(ctx):
     quick = ctx.quick
     ctx.rule = ("cases = (a) operation sequences over {expand, shrink, copy, validate} on up to 2-3 live objects "
@@ -316,6 +364,8 @@ def run(ctx):
         shapes = list(enumerate(tables["shapes"]))
         res_s = pool.map(run_shape, shapes, chunksize=32)
         res_v = pool.map(run_variant, tables["variants"], chunksize=16)
+        merges = sorted(tables["merges"], key=lambda r: json.dumps(r, sort_keys=True))
+        res_m = pool.map(run_merge, merges, chunksize=16)
     for c, probs in zip(cases, res):
         opsk = [s["op"] for s in c["ops"]]
         ctx.case(json.dumps([c["init"], opsk, c["skel"], c["uses"][0][0]]),
@@ -335,6 +385,11 @@ def run(ctx):
         ctx.case("variant:" + json.dumps(rec["v"], sort_keys=True), nontrivial=True)
         for kind, text in probs:
             ctx.violation(kind, text, {"mode": "variant", "rec": rec})
+    for rec, probs in zip(merges, res_m):
+        ctx.case("merge:" + json.dumps([rec["s1"], rec["s2"]], sort_keys=True), nontrivial=bool(rec["newdups"]))
+        for kind, text in probs:
+            ctx.violation(kind, text, {"mode": "merge", "rec": rec})
+    ctx.note("dictionary_merge_cases", len(merges))
     ctx.note("behaviours_replayed", len(cases))
     ctx.note("df_behaviours_replayed", len(res_df))
     ctx.note("definition_shapes", len(shapes))
@@ -356,6 +411,8 @@ def replay(obj):
         p = run_shape((obj["n"], obj["rec"]))
     elif obj["mode"] == "variant":
         p = run_variant(obj["rec"])
+    elif obj["mode"] == "merge":
+        p = run_merge(obj["rec"])
     else:
         return True, "df replay: rerun the check"
     return (not p), "; ".join(t for _, t in p) or "agrees with the specification"
